@@ -78,7 +78,7 @@ OthersPart2 ==
 
 \* only encodable packages travel: no identity element anywhere (a real suite
 \* cannot even decode one; in the toy field an offset may hit it by accident)
-Encodable(p) == ~IsIdent(p.R) /\ \A k \in DOMAIN p.commit : ~IsIdent(p.commit[k])
+EncodableR1(p) == ~IsIdent(p.R) /\ \A k \in DOMAIN p.commit : ~IsIdent(p.commit[k])
 
 \* the adversary prepares the altered object, if the fault needs one
 Forge ==
@@ -86,10 +86,10 @@ Forge ==
   /\ UNCHANGED sc
   /\ pc' = <<"recv2", 0>>
   /\ CASE F.kind \in {"r1field", "r1len"} ->
-            /\ Encodable(TamperedR1(env[<<"r1p", sc.s>>], F.what, F.k, F.d))
+            /\ EncodableR1(TamperedR1(env[<<"r1p", sc.s>>], F.what, F.k, F.d))
             /\ ActTamperR1(<<"r1x", sc.s>>, <<"r1p", sc.s>>, F.what, F.k, F.d)
        [] F.kind = "r1late"  ->
-            /\ Encodable(TamperedR1(env[<<"r1p", sc.s>>], "commit", F.k, F.d))
+            /\ EncodableR1(TamperedR1(env[<<"r1p", sc.s>>], "commit", F.k, F.d))
             /\ ActTamperR1(<<"r1x", sc.s>>, <<"r1p", sc.s>>, "commit", F.k, F.d)
        [] F.kind = "r2delta" -> ActTamperR2(<<"r2x", sc.s>>, <<R2N[sc.s], sc.r>>, F.d)
        [] OTHER -> UNCHANGED fvars
